@@ -56,7 +56,8 @@ U('exact_env_lone_dollar', 'U_EXACT, A_SPACE, A_DOLLAR, D_FLAGS=RF_LONEDOLLAR, D
 A = "U_EXACT, A_SPACE, A_PCT, A_PAREN"
 ALPH = "each ? any of {a, space, %, (, )}"
 U('exact_call_empty', A, "inputs of the shape ?%a()? -- " + ALPH + " -- in which every % starts a balanced call", 14, shape='?%a()?', recursion=1)
-U('exact_call_prefix', A, "inputs of the shape ??%a(a) -- " + ALPH + " -- in which every % starts a balanced call", 14, shape='??%a(a)', recursion=1)
+U('exact_call_prefix', A, "inputs of the shape ?%a(a) -- " + ALPH + " -- in which every % starts a balanced call", 14, shape='?%a(a)', recursion=1)
+U('exact_call_prefix2', A, "inputs of the shape ??%a(a) -- " + ALPH + " -- in which every % starts a balanced call", 14, shape='??%a(a)', recursion=1, quick='no')
 U('exact_call_suffix', A, "inputs of the shape %a(a)?? -- " + ALPH + " -- in which every % starts a balanced call", 14, shape='%a(a)??', recursion=1)
 CS = {'harness.0': 20, 'harness.1': 16, 'harness.2': 20, 'check_exact.0': 16, 'check_exact.1': 42}
 U('exact_call_cases', 'U_CASES, CASESET=1, A_SPACE, A_TILDE, A_BS, A_SQ, A_DQ, A_PCT, A_PAREN',
@@ -69,9 +70,12 @@ U('reads_ok', R + ', A_SPACE, A_TILDE, A_BS, A_BRACE, A_PAREN, ' + Q + ', D_FLAG
 U('reads_backslash', R + ', A_BS, A_SQ, D_FLAGS=RF_TRAIL_BS, D_NEED=RF_TRAIL_BS', "input <= 6 characters over {a, backslash, '} ending in a backslash, in a block of exactly strlen+1 bytes", 8, nmax=6)
 U('reads_dollar_ok', R + ', A_DOLLAR, A_BRACE, A_PAREN, D_FLAGS=(RF_LONEDOLLAR|RF_EMPTYNAME)', "input <= 4 characters over {a, $, {, }, (, )} with every ${ and $( closed, in a block of exactly strlen+1 bytes; $a unset or empty", 8, nmax=4, mem=12)
 U('reads_dollar_unterminated', R + ', A_DOLLAR, A_BRACE, A_PAREN, D_FLAGS=(RF_UNTERM|RF_LONEDOLLAR|RF_EMPTYNAME), D_NEED=RF_UNTERM', "input <= 4 characters over {a, $, {, }, (, )} with an unclosed ${ or $(, in a block of exactly strlen+1 bytes", 8, nmax=4, mem=12)
-U('reads_percent_ok', R + ', A_SPACE, A_PCT, A_PAREN, D_FLAGS=0u', "input <= 5 characters over {a, space, %, (, )}, every % a balanced call, in a block of exactly strlen+1 bytes; the built-in returns NULL or \"\"", 8, nmax=5, recursion=1, timeout=900, mem=12)
-U('reads_percent_lone', R + ', A_SPACE, A_PCT, A_PAREN, D_FLAGS=RF_LONEPCT, D_NEED=RF_LONEPCT', "input <= 5 characters over {a, space, %, (, )} with a % that starts no call, in a block of exactly strlen+1 bytes", 8, nmax=5, recursion=1, timeout=900, mem=12)
-U('reads_percent_open', R + ', A_SPACE, A_PCT, A_PAREN, D_FLAGS=RF_MISMATCH, D_NEED=RF_MISMATCH', "input <= 5 characters over {a, space, %, (, )} with an unclosed %a(, in a block of exactly strlen+1 bytes", 8, nmax=5, recursion=1, timeout=900, mem=12)
+U('reads_percent_ok', R + ', A_SPACE, A_PCT, A_PAREN, D_FLAGS=0u', "input <= 4 characters over {a, space, %, (, )}, every % a balanced call, in a block of exactly strlen+1 bytes; the built-in returns NULL or \"\"", 8, nmax=4, recursion=1, quick='no', timeout=900, mem=12)
+U('reads_percent_ok_5', R + ', A_SPACE, A_PCT, A_PAREN, D_FLAGS=0u', "input <= 5 characters over {a, space, %, (, )}, every % a balanced call, in a block of exactly strlen+1 bytes; the built-in returns NULL or \"\"", 8, nmax=5, recursion=1, quick='no', timeout=900, mem=12)
+U('reads_percent_lone', R + ', A_SPACE, A_PCT, A_PAREN, D_FLAGS=RF_LONEPCT, D_NEED=RF_LONEPCT', "input <= 3 characters over {a, space, %, (, )} with a % that starts no call, in a block of exactly strlen+1 bytes", 8, nmax=3, recursion=1, timeout=900, mem=12)
+U('reads_percent_lone_5', R + ', A_SPACE, A_PCT, A_PAREN, D_FLAGS=RF_LONEPCT, D_NEED=RF_LONEPCT', "input <= 5 characters over {a, space, %, (, )} with a % that starts no call, in a block of exactly strlen+1 bytes", 8, nmax=5, recursion=1, quick='no', timeout=900, mem=12)
+U('reads_percent_open', R + ', A_SPACE, A_PCT, A_PAREN, D_FLAGS=RF_MISMATCH, D_NEED=RF_MISMATCH', "input <= 3 characters over {a, space, %, (, )} with an unclosed %a(, in a block of exactly strlen+1 bytes", 8, nmax=3, recursion=1, timeout=900, mem=12)
+U('reads_percent_open_5', R + ', A_SPACE, A_PCT, A_PAREN, D_FLAGS=RF_MISMATCH, D_NEED=RF_MISMATCH', "input <= 5 characters over {a, space, %, (, )} with an unclosed %a(, in a block of exactly strlen+1 bytes", 8, nmax=5, recursion=1, quick='no', timeout=900, mem=12)
 U('reads_backquote', R + ', A_BQ', "input <= 3 characters over {a, back-quote} in a block of exactly strlen+1 bytes; builtin_exec cannot create its temporary file and returns NULL", 8, nmax=3, recursion=1, mem=12,
   over={"spifconf_shell_expand.%d" % L4: 5, 'strcat.0': 4, 'strcpy.0': 16, 'strlen.0': 16})
 U('determinism_plain', 'U_DET, A_SPACE, A_TILDE, A_BS, ' + Q, "two calls, input <= 6 characters over {a, space, ~, backslash, ', \"} not ending in a backslash, different leftovers", 14, nmax=6, over={'strcmp.0': 16})
